@@ -19,7 +19,7 @@ ASSUMPTIONS = [
 CASES = {"quick": 120000, "thorough": 2000000}
 MIN_CASES = {"quick": 25000, "thorough": 30000}
 REQUIRED_COUNTERS = ["assignments_checked", "solve_checked", "model_checked", "posted:clause", "posted:imply", "posted:amo_quadratic", "posted:amo_heule",
-                     "posted:pb_plain", "posted:pb_decomposed", "op:>=", "op:<=", "op:>", "op:<", "op:=", "refused", "history_encodings", "posted:huge_coefficients_decomposed", "posted:huge_coefficients_plain"]
+                     "posted:pb_plain", "posted:pb_decomposed", "op:>=", "op:<=", "op:>", "op:<", "op:=", "refused", "history_encodings", "caller_lists_compared", "posted:huge_coefficients_decomposed", "posted:huge_coefficients_plain"]
 VARS = ["x0", "x1", "x2", "x3", "x4", "x5", "x6", "x7", "x8", "x9"]
 
 _sat = _pb = _Solver = None
@@ -177,18 +177,33 @@ def build_ineq(c, lit):
     return pb.Ineq(e, rhs, c["op"])
 
 
+class CallerListAltered(Exception):
+    pass
+
+
 def post(sm, c, lit):
+    """posts one constraint; the literal list handed over stays the caller's (an 'exactly one' is posted as an at-most-one
+    followed by a clause over the SAME list object): it must come back as it went in"""
     k = c["k"]
+    lst = None
     if k == "clause":
-        sm.add_clause([lit(l) for l in c["lits"]])
+        lst = [lit(l) for l in c["lits"]]
+        sm.add_clause(lst)
     elif k == "imply":
-        sm.imply([lit(l) for l in c["ante"]], lit(c["cons"]))
+        lst = [lit(l) for l in c["ante"]]
+        sm.imply(lst, lit(c["cons"]))
     elif k == "amo_quadratic":
-        sm.quadraticencoding([lit(l) for l in c["lits"]])
+        lst = [lit(l) for l in c["lits"]]
+        sm.quadraticencoding(lst)
     elif k == "amo_heule":
-        sm.heuleencoding([lit(l) for l in c["lits"]], c["kk"])
+        lst = [lit(l) for l in c["lits"]]
+        sm.heuleencoding(lst, c["kk"])
     else:
         sm.pseudoboolencoding(build_ineq(c, lit), c["decomp"])
+    if lst is not None:
+        want = [lit(l) for l in (c["ante"] if k == "imply" else c["lits"])]
+        if len(lst) != len(want) or any((a.v, a.s) != (b.v, b.s) for a, b in zip(lst, want)):
+            raise CallerListAltered(f"{k}: the caller's literal list {[(b.v, b.s) for b in want]} came back as {[(getattr(a, 'v', a), getattr(a, 's', None)) for a in lst]}")
 
 
 def check(case, ctx):
@@ -216,6 +231,7 @@ def check(case, ctx):
             ctx.count("op:" + c["op"])
         try:
             post(sm, c, lit)
+            ctx.count("caller_lists_compared")
             posted.append(c)
             ctx.count("posted:" + kind)
             if c.get("huge"):
@@ -225,7 +241,7 @@ def check(case, ctx):
                 ctx.count("refused")
                 ctx.count("refused_op:" + c["op"])
             else:
-                ctx.violation("post_raised", f"posting {c} raised {type(e).__name__}: {e}")
+                ctx.violation("caller_list_altered" if isinstance(e, CallerListAltered) else "post_raised", f"posting {c} raised {type(e).__name__}: {e}")
                 return
     # ---- extract the CNF ---------------------------------------------------------------------------
     try:
